@@ -509,6 +509,9 @@ def run_session(cfg: Dict[str, Any]) -> Dict[str, Any]:
     py_state = _random.getstate()
     tables: List[_Table] = []
     with baton.World(sched, debug_logging=bool(cfg.get('debug_logging'))) as world:
+        if cfg.get('segment'):
+            # the transport cuts what is sent into segments (also between CR and LF)
+            world.net.segment = _random.Random(rnd.randrange(1 << 30))
         # ---- capture the replicas the clients build (from outside) ----------
         orig_obs = ppmod.ObservedPlayingPhase
         orig_bp = cmod.Client.bidding_phase
